@@ -91,7 +91,10 @@ def run(chk, replay=None):
             if rb.ok:
                 raise vlib.Infra("binding demonstration failed: trace with a disabled hook was accepted")
             chk.part("vacuity_guards", **guards)
+        # ---- specification growth (drift only): the redirect map of the same package (spec/Redirect.tla)
+        vlib.replay_cases(chk, "Redirect", vlib.cfg("G05_redirect.cfg", OPCODES=vlib.intset(range(16))), "g05.redirect", "growth_redirect")
         chk.assumptions += ["expiry is two classes (ttl = +1h / -1h), no clock hook",
+                            "growth (drift only): Redirect.tla, the complete (state, call) graph of nbtns.RedirectManager over 2 scopes x 2 mappings x 16 opcodes",
                             "real schedules are sampled; the race detector generalises only over accesses that occurred",
                             "alphabet: 2 names x 2 (quick) / 3 (thorough) addresses for the exhaustive graph; 3 names x 4 addresses for traces"]
     finally:
